@@ -163,6 +163,61 @@ def check_mesh(rec, rng, mesh, kinds, ranks, reds, counts):
                       "source data unchanged", kind, "aggregation modified its input", inp)
 
 
+def check_subset_history(rec, rng, mesh):
+    """aggregate on a grid, then take a subset of it (or of the variable) and aggregate on the subset: every face / edge of the
+    SUBSET is reduced over exactly its own nodes (nothing computed for the source grid is reused)"""
+    nf, nn = mesh["n_face"], mesh["n_node"]
+    if nf < 3:
+        return
+    g = grid_of(mesh)
+    data = make_data(rng, "float64", (2, nn))
+    uxda = ux.UxDataArray(data.copy(), dims=["time", "n_node"], uxgrid=g, name="v")
+    with warnings.catch_warnings():
+        warnings.simplefilter("ignore")
+        try:
+            uxda.topological_mean(destination="face")
+            uxda.topological_max(destination="edge")
+        except Exception:  # noqa: BLE001   (the main pass reports this)
+            return
+    keep = sorted(rng.sample(range(nf), max(1, nf // 2)))
+    rng.shuffle(keep)
+    for route in ("UxDataArray.isel(n_face)", "Grid.isel(n_face)"):
+        inp = {"mesh": mesh["name"], "history": ["topological_mean('face') and topological_max('edge') on the full grid", route, "aggregation on the subset"],
+               "faces_kept": keep[:12]}
+        try:
+            if route.startswith("UxDataArray"):
+                sub = uxda.isel(n_face=keep)
+                sg, sdata = sub.uxgrid, np.asarray(sub.values)
+                sda = sub
+            else:
+                sg = g.isel(n_face=keep)
+                sdata = data[..., np.asarray(sg._ds["subgrid_node_indices"].values)]
+                sda = ux.UxDataArray(sdata.copy(), dims=["time", "n_node"], uxgrid=sg, name="v")
+            sfaces = np.asarray(sg.face_node_connectivity.values)
+            senc = [(int(a), int(b)) for a, b in np.asarray(sg.edge_node_connectivity.values)]
+        except Exception as e:  # noqa: BLE001
+            continue           # subsetting itself is C09's business
+        if sdata.shape[-1] != sg.n_node:
+            continue
+        for red, dest, elems in (("mean", "face", _corners(sfaces)), ("sum", "face", _corners(sfaces)), ("min", "edge", senc)):
+            fn = REDUCTIONS[red]
+            exp = np.stack([np.asarray(fn(sdata[..., list(c)], axis=-1)) for c in elems], axis=-1)
+            try:
+                with warnings.catch_warnings():
+                    warnings.simplefilter("ignore")
+                    out = getattr(sda, "topological_" + red)(destination=dest)
+            except Exception as e:  # noqa: BLE001
+                rec.check(False, f"topological_{red} raises {type(e).__name__}", f"{dest}:subset_after_aggregation_on_source",
+                          f"{type(e).__name__}: {e}"[:200], inp)
+                continue
+            got = np.asarray(out.values)
+            ok = got.shape == exp.shape and _equal(got, exp, "float64")
+            rec.check(ok, "result == numpy reduction over exactly the element's nodes", f"{dest}:{red}:subset_after_aggregation_on_source",
+                      f"topological_{red}(destination='{dest}') on a subset taken after aggregating on the source grid differs from np.{red} "
+                      f"over the subset's own element nodes", inp, None if ok else (list(got.shape) if got.shape != exp.shape else _first_diff(got, exp, "float64")),
+                      "np.%s(data[..., nodes_of_element], axis=-1)" % red)
+
+
 def check_unsupported(rec, mesh):
     g = grid_of(mesh)
     n_face, n_node, n_edge = g.n_face, g.n_node, g.n_edge
@@ -206,10 +261,14 @@ def aggregations(tier, seed):
             check_mesh(rec, rng, m, kinds_all, [1, 2, 3], reds, counts)
     for m in cat[:8] if tier == "quick" else cat[:30]:
         check_unsupported(rec, m)
+    hist = [x for x in cat if len(set(mg.npf(x["faces"]).tolist())) > 1][: (6 if tier == "quick" else 40)] + cat[:3]
+    for m in hist:
+        check_subset_history(rec, rng, m)
+        counts.add((m["name"], "subset_history", 2))
     mixed = sum(1 for m in cat if len(set(mg.npf(m["faces"]).tolist())) > 1)
     bound = (f"{len(cat)} catalogue meshes ({mixed} with mixed face sizes, renumbered variants included; tier {tier}); node data float64/float32/"
              f"int64/int32/bool (+ float64 with NaN, int64 above 2**53 for min/max only), rank 1..3 with node dimension last; all ten "
              f"reductions x destinations face and edge compared face-by-face / edge-by-edge with numpy; dims, same-grid, unsupported "
-             f"combinations (face/edge source, destination node/None/unknown) must raise")
+             f"combinations (face/edge source, destination node/None/unknown) must raise; subsets (Grid.isel / UxDataArray.isel by face) taken AFTER aggregating on the source grid, aggregated again")
     samples = [{"mesh": m["name"], "n_face": m["n_face"], "n_node": m["n_node"]} for m in cat[6:9]]
     return result(rec.cases, len(counts), rec.failures, bound, samples)
